@@ -172,6 +172,9 @@ func cmdCheck(args []string) {
 		}
 	}
 	replayDir := filepath.Join(verifDir, "replays", id)
+	if *noEvidence {
+		replayDir = filepath.Join(verifDir, ".work", "replays", id)
+	}
 	if !*noEvidence {
 		os.RemoveAll(replayDir) // replays are rewritten on every run
 	}
